@@ -183,7 +183,7 @@ Print Assumptions C09_prep_budget_wf.
 
 (* ---- non-vacuity: a three-span OMS with a short (padded) span, a fused splice, an auto-selected in-line amplifier, an
    operator offset and an automatic VOA *)
-Definition ex_cfg : span_cfg := mkSpan true [-2; 3; 1 # 2] 20 (3 # 10) 1 (1 # 2) (5 # 2) (1 # 4) 10 (1 # 2) (1 # 2) (1 # 2).
+Definition ex_cfg : span_cfg := mkSpan true [-2; 3; 1 # 2] 20 (3 # 10) 1 (1 # 2) (5 # 2) (1 # 4000) 10 (1 # 2) (1 # 2) (1 # 2).
 Definition ex_lib : list amp :=
   [mkAmp "low" false false true 191275 196125 8 16 21 false; mkAmp "med" false false true 191275 196125 15 25 21 true].
 Definition ex_nfs : list (string * Q) := [("low"%string, 7); ("med"%string, 6)].
